@@ -18,7 +18,21 @@ def grid(rng, lo, hi, step=0.125):
 
 # form -> (parameter sampler, r sampler).  All values are multiples of 1/8 or short decimals so that they
 # survive text round trips exactly; domains keep the evaluation well conditioned.
+ZEROABLE = {'buck': [0, 2], 'bornmayer': [0], 'coul': [0, 1], 'constant': [0], 'exponential': [0], 'hbnd': [0, 1], 'lj': [0], 'morse': [2], 'sqrt': [0],
+            'tang_toennies': [0, 2, 3, 4], 'exp_spline': [1, 2, 3, 4, 5, 6], 'polynomial': None}
 def sample_params(name, rng):
+    """parameters and a separation; one time in four a coefficient-like parameter is exactly zero (a term that drops out)"""
+    ps, r = _sample_params(name, rng)
+    if rng.random() < 0.25 and ps:
+        idx = ZEROABLE.get(name, [])
+        if idx is None: idx = list(range(len(ps)))
+        idx = [i for i in idx if i < len(ps)]
+        if idx:
+            ps = list(ps)
+            for i in rng.sample(idx, rng.randint(1, min(2, len(idx)))): ps[i] = 0.0
+    return ps, r
+
+def _sample_params(name, rng):
     g = lambda lo, hi, st=0.125: grid(rng, lo, hi, st)
     if name == 'buck': return [g(-500, 3000, 0.5), rng.choice([g(0.125, 0.75), -g(0.25, 0.75)]), g(-20, 120, 0.5)], g(0.75, 6)
     if name == 'bornmayer': return [g(-500, 3000, 0.5), rng.choice([g(0.125, 0.75), -g(0.25, 0.75)])], g(0.75, 6)
